@@ -308,15 +308,6 @@ def one_run(scn, template, work, prefix, n, sleep0=()):
     return pre, res, sigs, snap, ws
 
 
-def lit_name(L, s):
-    # temp names carry the actor tag: "._TMP_a0_signac_statepoint.json"
-    for base, coq in ((SPF, "SPF"), (DOCF, "DOCF")):
-        for a in range(4):
-            if s == "._TMP_" + tag_of(a) + base:
-                return L.define("tmp_%d_%s" % (a, coq.lower()), "(TMPPFX ++ %s ++ %s)" % (Lit.raw(tag_of(a)), coq))
-    return L.name(s)
-
-
 class Lit12(Lit):
     def name(self, s):
         if s.startswith("._TMP_a"):
@@ -459,13 +450,13 @@ def gen_inputs(tier, rng):
     quick = tier == "quick"
     descs = []
     for scn in scenarios():
-        descs.append({"scn": dict(scn, threads=True), "budget": 250 if quick else 10000, "seed": rng.randrange(10 ** 6),
+        descs.append({"scn": dict(scn, threads=True), "budget": 250 if quick else 7000, "seed": rng.randrange(10 ** 6),
                       "order": "random" if quick else "dfs"})
     for scn in scenarios3():
-        descs.append({"scn": dict(scn, threads=True), "budget": 100 if quick else 2500, "seed": rng.randrange(10 ** 6),
+        descs.append({"scn": dict(scn, threads=True), "budget": 100 if quick else 2000, "seed": rng.randrange(10 ** 6),
                       "order": "random"})
     for name in ("init-same-empty", "init-same-populated"):
         scn = [s for s in scenarios() if s["name"] == name][0]
-        descs.append({"scn": dict(scn, threads=False, name=name + "-direct"), "budget": 100 if quick else 3000,
+        descs.append({"scn": dict(scn, threads=False, name=name + "-direct"), "budget": 100 if quick else 2500,
                       "seed": rng.randrange(10 ** 6), "order": "random"})
     return descs
